@@ -307,6 +307,46 @@ def run_on_tty(argv, cwd, lines, timeout=60):
     return (os.WEXITSTATUS(status) if os.WIFEXITED(status) else -os.WTERMSIG(status)), out
 
 
+def long_path(T, sc, W, data, stats):
+    """Default output naming (INPUT.ascon / INPUT without the suffix) with an input path of 200..400 characters, a few
+    directories deep: the output appears under exactly that name, the input is left alone, and the pair round-trips."""
+    if sc["size"] > 70000:
+        return None
+    wd = W.sub()
+    want_len = 200 + (sc["cseed"] * 7 + len(sc["password"])) % 200
+    if sc["cseed"] % 5 == 0:
+        want_len = 249 + sc["cseed"] % 9          # around 255 = NAME_MAX, where a component limit is easily taken for a path limit
+    parts = []
+    total = 0
+    base = "in.dat"
+    while total + len(base) < want_len:
+        n = min(60, want_len - total - len(base) - 1)
+        if n < 1:
+            break
+        parts.append("d" * n)
+        total += n + 1
+    rel = os.path.join(*(parts + [base])) if parts else base
+    os.makedirs(os.path.join(wd, os.path.dirname(rel)) if parts else wd, exist_ok=True)
+    with open(os.path.join(wd, rel), "wb") as f:
+        f.write(data)
+    scp = dict(sc, pwmode="p")
+    rc, so, se = runp([T["asconcrypt"]] + pw_args(scp, wd) + [rel], wd)
+    stats["runs"] += 1
+    stats["nontrivial"].add(("longpath", len(rel)))
+    encp = os.path.join(wd, rel + ".ascon")
+    if rc != 0 or not os.path.exists(encp) or os.path.getsize(encp) != len(data) + HDR:
+        return ("encrypting an input path of %d characters with default naming: exit status %d, %s.ascon %s" % (len(rel), rc, "...",
+                "missing" if not os.path.exists(encp) else "has %d bytes, expected %d" % (os.path.getsize(encp), len(data) + HDR)), {"step": "long-path"})
+    if open(os.path.join(wd, rel), "rb").read() != data:
+        return ("encrypting an input path of %d characters with default naming modified the input file" % len(rel), {"step": "long-path"})
+    os.remove(os.path.join(wd, rel))
+    rc, so, se = runp([T["asconcrypt"]] + pw_args(scp, wd) + [rel + ".ascon"], wd)
+    stats["runs"] += 1
+    if rc != 0 or not os.path.exists(os.path.join(wd, rel)) or open(os.path.join(wd, rel), "rb").read() != data:
+        return ("decrypting a path of %d characters with default naming: exit status %d, restored file %s" % (len(rel) + 6, rc, "present" if os.path.exists(os.path.join(wd, rel)) else "missing"), {"step": "long-path"})
+    return None
+
+
 def prompt_form(T, sc, W, data, enc, stats):
     """The documented default: no -p / -k, the password is typed at the `Password:` prompt (twice when encrypting).  The typed
     password is the password: what was encrypted that way decrypts with -p, what was encrypted with -p / -k decrypts by typing,
@@ -418,6 +458,9 @@ def check_case(T, sc, stats, tier):
         if e:
             return e
         e = stdio_form(T, sc, W, data, enc, stats)
+        if e:
+            return e
+        e = long_path(T, sc, W, data, stats)
         if e:
             return e
         if sc["size"] <= 70000:
@@ -599,6 +642,28 @@ def check_sum_case(T, sc, stats):
             if rc != 0 or so.decode("utf-8", "replace") != wantc:
                 return ("asconsum -c on unmodified files, list %s%s, printed %r (rc=%d)" % (["", "without a final newline", "with CR LF line ends", "with CR LF line ends and no final newline"][shape],
                         " on standard input" if sc["mod"]["pos"] & 4 else "", so.decode("utf-8", "replace")[:200], rc), {"step": "check-ok-shape"})
+        # a file that opens but cannot be read (a directory: fopen succeeds, the first read fails): no digest, no OK, non-zero status
+        if sc["mod"]["pos"] & 32:
+            os.mkdir(os.path.join(wd, "adir"))
+            rc, so, se = runp([T["asconsum"]] + ([flag] if flag else []) + [names[0], "adir"], wd)
+            stats["runs"] += 1
+            if rc == 0 or b"  adir" in so:
+                return ("asconsum on a file whose read fails (a directory): exit status %d, standard output %r" % (rc, so.decode("utf-8", "replace")[-160:]), {"step": "read-error"})
+            for dg in set(digests):
+                with open(os.path.join(wd, "d4.ascon"), "w") as f:
+                    f.write("%s  adir\n" % dg)
+                rc, so, se = runp([T["asconsum"]] + ([flag] if flag else []) + ["-c", "d4.ascon"], wd)
+                stats["runs"] += 1
+                if rc == 0 or b"adir: OK" in so:
+                    return ("asconsum -c on a listed file whose read fails (a directory): exit status %d, standard output %r" % (rc, so.decode("utf-8", "replace")[-160:]), {"step": "read-error-check"})
+            rc2, o2 = sh([refcli_path(), mode, "/dev/null"])
+            with open(os.path.join(wd, "d4.ascon"), "w") as f:
+                f.write("%s  adir\n" % o2.strip())
+            rc, so, se = runp([T["asconsum"]] + ([flag] if flag else []) + ["-c", "d4.ascon"], wd)
+            stats["runs"] += 1
+            if rc == 0 or b"adir: OK" in so:
+                return ("asconsum -c: a directory listed with the digest of the empty input is reported OK (exit status %d)" % rc, {"step": "read-error-check"})
+            os.rmdir(os.path.join(wd, "adir"))
         # a long list under a small open-file limit (every file the tool opens it closes again): the same entries many times over
         if sc["mod"]["pos"] & 8:
             reps = 40 // len(names) + 1
